@@ -22,6 +22,8 @@ INVARIANT LawParity
 INVARIANT LawSigns
 INVARIANT LawClosed
 INVARIANT LawSignLocal
+INVARIANT LawWellFormed
+INVARIANT LawVisibility
 INVARIANT Emit
 CHECK_DEADLOCK FALSE
 """
@@ -29,8 +31,40 @@ JUDGE_CFG = "INIT Init\nNEXT Next\nINVARIANT Judge\nCHECK_DEADLOCK FALSE\n"
 
 
 # ============================================================================ part 1: per-face semantics
-def static_variants(idx):
+# centres of the partial projections: integer directions in the plane y = 0 chosen so that few lattice nodes fall
+# exactly on the horizon (the specification leaves those faces, and then the whole record, unjudged)
+PARTIAL_QUICK = ["ortho:3,0,1", "nsper:-3,0,-1"]
+PARTIAL_THOROUGH = ["ortho:3,0,1", "nsper:-3,0,-1", "ortho:-1,0,3", "ortho:1,0,-3", "nsper:1,0,3", "ortho:-3,0,1"]
+PARTIAL_CUBED = ["ortho:2,0,1", "nsper:-2,0,-1"]        # odd lattice coordinates: 2x + z is never 0
+
+
+def partial_variants(idx, names):
+    """Conversions under projections that show only part of the sphere (NaN polygons)."""
+    out = []
+    for n, pn in enumerate(names):
+        for pe in ("exclude", "ignore"):
+            eng = ("sp", "gp")[(idx + n + len(out)) % 2]
+            base = {"pe": pe, "proj": pn, "project": True, "cache": True, "override": False, "var": "a"}
+            out.append(dict(base, act="DataToGdf", eng=eng))
+            out.append(dict(base, act="ToGdf", eng=eng, xnan=True))
+            out.append(dict(base, act="ToGdf", eng=("gp", "sp")[(idx + n) % 2], xnan=False))
+            out.append(dict(base, act="DataToPoly", eng="-", ri=True))
+            out.append(dict(base, act="ToLine", eng="-"))
+    return out
+
+
+def static_variants(idx, partial=(), reduced=False):
     """The conversions performed on a fresh grid of one case (every one on its own fresh grid)."""
+    if reduced:
+        # large meshes: one engine, the seam-moving projection, every periodic_elements option
+        out = [{"act": "Am"}]
+        for pe in X.PE:
+            for pn, pj in (("none", True), ("rob180", True), ("pc180", False)):
+                out.append({"act": "DataToGdf", "pe": pe, "proj": pn, "eng": ("sp", "gp")[len(out) % 2], "project": pj, "cache": True, "override": False, "var": "a"})
+            for pn in ("none", "rob180"):
+                out.append({"act": "DataToPoly", "pe": pe, "proj": pn, "eng": "-", "project": True, "cache": True, "override": False, "var": "a", "ri": True})
+                out.append({"act": "ToLine", "pe": pe, "proj": pn, "eng": "-", "project": True, "cache": True, "override": False})
+        return out + partial_variants(idx, partial)
     out = [{"act": "Am"}]
     projs = [("none", True), ("rob", True), ("rob180", True), ("rob180", False), ("pc180", True), ("pc180", False)]
     for pe in X.PE:
@@ -43,7 +77,7 @@ def static_variants(idx):
             act = "ToPoly" if (idx + len(out)) % 5 == 0 else "DataToPoly"
             out.append({"act": act, "pe": pe, "proj": pn, "eng": "-", "project": True, "cache": True, "override": False, "var": "a", "ri": True})
             out.append({"act": "ToLine", "pe": pe, "proj": pn, "eng": "-", "project": True, "cache": True, "override": False})
-    return out
+    return out + partial_variants(idx, partial)
 
 
 def refused(ev):
@@ -58,7 +92,8 @@ def refused(ev):
 def ev_tag(ev):
     if ev["act"] == "Am":
         return "Am"
-    return "%s/%s/%s/%s/p%d" % (ev["act"], ev["pe"], ev["proj"], ev["eng"], 1 if ev.get("project", True) else 0)
+    return "%s/%s/%s/%s/p%d%s" % (ev["act"], ev["pe"], ev["proj"], ev["eng"], 1 if ev.get("project", True) else 0,
+                                  "" if "xnan" not in ev else ("x1" if ev["xnan"] else "x0"))
 
 
 def record_static(case):
@@ -74,7 +109,7 @@ def record_static(case):
     except Exception as e:  # noqa
         return {"id": case["id"], "fatal": "%s: %s" % (type(e).__name__, str(e)[:200])}
     base = {"nodes": entry["nodes"], "faces": entry["faces"]}
-    for ev in static_variants(case["idx"]):
+    for ev in static_variants(case["idx"], case.get("partial", ()), case.get("reduced", False)):
         rid = "%s|%s" % (case["id"], ev_tag(ev))
         try:
             g = X.make_grid(entry, sv)
@@ -106,6 +141,12 @@ def record_static(case):
                 system, crs_ok = T.system(ev["proj"], True), bool(tr == pj)
         rows, data, holes = X.raw_rows(obj, kind)
         rec = dict(base, id=rid, kind=kind, pe=ev["pe"], k=k, sgn=T.sgn[k])
+        if X.is_partial(system):
+            rec.update(pc=X.centre_of(system), pk=system.split(":")[0], nanmode="keep" if ev.get("xnan") is False else "drop", nodenan=T.nodenan(system))
+        if isinstance(owner, tuple):
+            if owner[1] is not None:
+                rec["nn"] = owner[1]
+            owner = None
         rec["rows"] = [[T.match(p, system) for p in r] for r in rows]
         if holes:
             rec["rows"].append([[[-2, 0]]])
@@ -135,14 +176,52 @@ def record_static(case):
             "sgn": T.sgn}
 
 
+def record_accessor(case):
+    """Plotting accessors (run in the parent process): grid.plot.edges / uxda.plot.polygons with the default and with
+    explicit projections; the frame they hand to hvplot is captured and judged like any other GeoDataFrame."""
+    entry, sv = case["entry"], case["sv"]
+    g0 = X.make_grid(entry, sv)
+    lon, lat = X.recorded_lonlat(g0, entry, sv)
+    T = X.Targets(entry, lon, lat)
+    base = {"nodes": entry["nodes"], "faces": entry["faces"]}
+    recs, errs = [], []
+    n = 0
+    for act, pact in (("ToGdf", "PlotEdges"), ("DataToGdf", "PlotPolygons")):
+        for pe in X.PE:
+            for pn in ("default", "rob180", "pc180", "ortho:3,0,1"):
+                n += 1
+                ev = {"act": act, "pe": pe, "proj": pn, "eng": ("sp", "gp")[n % 2], "project": False, "cache": True, "override": False, "var": "a"}
+                rid = "%s|%s/%s/%s/%s/p0" % (case["id"], pact, pe, pn, ev["eng"])
+                try:
+                    g = X.make_grid(entry, sv)
+                    frame, ok = X.accessor_call(g, {"a": X.tracer(g, "ta")}, ev)
+                except Exception as e:  # noqa
+                    errs.append({"id": rid, "ev": ev, "error": "%s: %s" % (type(e).__name__, str(e)[:200]), "etype": type(e).__name__})
+                    continue
+                pname = "none" if pn == "default" else pn
+                k = X.seam_k(pname)
+                system = T.system(pname, False)
+                rows, data, holes = X.raw_rows(frame, "gdf")
+                rec = dict(base, id=rid, kind="gdf", pe=pe, k=k, sgn=T.sgn[k], args_ok=ok,
+                           frame_ok=type(frame).__module__.split(".")[0] == X.ENGINES[ev["eng"]])
+                rec["rows"] = [[T.match(p, system) for p in r] for r in rows]
+                if act == "DataToGdf":
+                    rec["data"] = data.get("ta", [])
+                recs.append(rec)
+    return recs, errs
+
+
+KIND_OF_ACT = {"ToGdf": "gdf", "DataToGdf": "gdf", "ToPoly": "poly", "DataToPoly": "poly", "ToLine": "line", "PlotEdges": "gdf", "PlotPolygons": "gdf"}
+
+
 def sig_of_static(rid, clause, facts=None, etype=None):
     """Signature of a failing conversion: the call (input description) plus the shape of the failure
     as decided by JudgePoly (facts.pattern)."""
     tag = rid.split("|")[-1].split("/")
     s = {"part": "static", "clause": clause, "act": tag[0]}
     if len(tag) >= 5:
-        s.update({"kind": {"ToGdf": "gdf", "DataToGdf": "gdf", "ToPoly": "poly", "DataToPoly": "poly", "ToLine": "line"}[tag[0]],
-                  "pe": tag[1], "proj": tag[2], "projected": tag[2] != "none" and tag[4] == "p1"})
+        s.update({"kind": KIND_OF_ACT[tag[0]], "pe": tag[1], "proj": tag[2], "eng": tag[3], "projected": tag[2] != "none" and tag[4].startswith("p1"),
+                  "partial": X.is_partial(tag[2]) if tag[2] != "default" else False, "accessor": tag[0].startswith("Plot")})
     if facts:
         s["crossers"] = bool(facts.get("crossers", 0))
         s["pattern"] = facts.get("pattern", "none")
@@ -179,12 +258,15 @@ def part_static(ctx, rng):
         keep = [e for e in ents if e["rot"] in (0, 7, 18)]
         rest = [e for e in ents if e["rot"] not in (0, 7, 18)]
         ents = keep + rng.sample(rest, 240 - len(keep)) if len(keep) < 240 else keep
-    gen = run_gen(ctx, ents, 0, "catalogue")
+    # larger mixed meshes: cubed spheres with triangulated cells (150 / 294+ faces), proved well formed by PolyGen
+    large = [X.cubed_sphere(5)] + ([X.cubed_sphere(7), X.cubed_sphere(9, split_every=4)] if thorough else [])
+    ents = ents + large
+    gen = run_gen(ctx, ents, 0, "catalogue + cubed spheres")
     # grids WITHOUT crossing faces: the sub-mesh of the faces the specification keeps under 'exclude'
     derived = []
     for mi, e in enumerate(ents, start=1):
         c0 = gen[(mi, 0, 1)]
-        if e["cut"] == 0 and not c0["polecorner"] and not c0["tie"] and len(c0["kept"]) >= 2 and len(derived) < (30 if thorough else 5):
+        if e["cut"] == 0 and not e["name"].startswith("cubed") and not c0["polecorner"] and not c0["tie"] and len(c0["kept"]) >= 2 and len(derived) < (30 if thorough else 5):
             d = dict(e)
             d["faces"] = [e["faces"][f] for f in c0["kept"]]
             d["closed"] = False
@@ -194,7 +276,7 @@ def part_static(ctx, rng):
     n_all = 0
     for mi, e in enumerate(list(ents), start=1):
         c0 = gen[(mi, 0, 1)]
-        if e["cut"] == 0 and not c0["polecorner"] and not c0["tie"] and len(c0["cross"]) >= 2 and n_all < (12 if thorough else 2) and len(e["sizes"]) >= (2 if n_all else 1):
+        if e["cut"] == 0 and not e["name"].startswith("cubed") and not c0["polecorner"] and not c0["tie"] and len(c0["cross"]) >= 2 and n_all < (12 if thorough else 2) and len(e["sizes"]) >= (2 if n_all else 1):
             d = dict(e)
             d["faces"] = [e["faces"][f] for f in sorted(c0["cross"])]
             d["closed"] = False
@@ -222,7 +304,9 @@ def part_static(ctx, rng):
             if key in seen:
                 continue
             seen.add(key)
-            cases.append({"id": "%s|sv%d" % (catalog.eid(e), sv), "idx": len(cases), "entry": e, "sv": sv, "mi": mi})
+            cases.append({"id": "%s|sv%d" % (catalog.eid(e), sv), "idx": len(cases), "entry": e, "sv": sv, "mi": mi,
+                          "partial": PARTIAL_CUBED if e["name"].startswith("cubed") else (PARTIAL_THOROUGH if thorough else PARTIAL_QUICK),
+                          "reduced": e["name"].startswith("cubed")})
     if not cases:
         raise Machinery("no static case left")
     import time
@@ -236,6 +320,20 @@ def part_static(ctx, rng):
             raise Machinery("case %s: %s" % (c["id"], o["fatal"]))
         recs += o["recs"]
         errs += o["errs"]
+    # the plotting accessors, on a few grids, in this process (hvplot initialises once)
+    t0 = time.time()
+    acc_cases = [c for c in cases if c["sv"] == 1 and c["entry"]["cut"] == 0 and "~" not in c["entry"]["name"] and not c["entry"]["name"].startswith("cubed")
+                 and gen[(c["mi"], 0, 1)]["cross"] and len(c["entry"]["sizes"]) >= 2][: (6 if thorough else 2)]
+    if not acc_cases:
+        raise Machinery("no grid for the accessor records")
+    X.warm_accessors(acc_cases[0]["entry"])
+    n_acc = 0
+    for c in acc_cases:
+        r_, e_ = record_accessor(c)
+        recs += r_
+        errs += e_
+        n_acc += len(r_) + len(e_)
+    ctx.note("accessor_static", {"grids": len(acc_cases), "calls": n_acc, "t_s": round(time.time() - t0, 1)})
     # TLC judges every record
     path = os.path.join(ctx.work, "poly_recs.ndjson")
     failed, unjudged = {}, {}
@@ -279,7 +377,7 @@ def part_static(ctx, rng):
     for e in errs:
         sg = sig_of_static(e["id"], "Raises", etype=e.get("etype"))
         c = case_of[e["id"].rsplit("|", 1)[0]]
-        gk = gen[(c["mi"], X.seam_k(e["ev"].get("proj", "none")), c["sv"])]
+        gk = gen[(c["mi"], X.seam_k(e["ev"].get("proj", "none").replace("default", "none")), c["sv"])]
         # decided by the specification: a face that does NOT cross the seam and whose corners lie on one parallel
         sg["flat_noncrossing_face"] = bool(set(gk["flat"]) - set(gk["cross"]))
         sg["none_kept"] = len(gk["kept"]) == 0          # every face crosses the seam (decided by the specification)
@@ -317,6 +415,15 @@ def part_static(ctx, rng):
             if bad:
                 ctx.violation(a["id"], "SplitAreaCovers", detail={"faces": bad[:5], "got": [got[i] for i in bad[:5]], "expected": [[ex[i] for ex in exps] for i in bad[:5]]},
                               replay={"case": a["id"], "nodes": e["nodes"], "faces": e["faces"]}, sig=sig_of_static(a["id"], "SplitAreaCovers"))
+    import collections
+
+    why = collections.Counter(unjudged.values())
+    n_partial = sum(1 for rec in recs if "pc" in rec and rec["id"] not in unjudged)
+    n_large = sum(1 for rec in recs if rec["id"].startswith("cubed") and rec["id"] not in unjudged)
+    if n_partial < 50 or n_large < 20:
+        raise Machinery("too few judged records under partial projections (%d) or on large meshes (%d)" % (n_partial, n_large))
+    ctx.note("static_partial", {"judged_records_partial_projection": n_partial, "judged_records_large_mesh": n_large, "unjudged_reasons": dict(why),
+                                "large_meshes": ["%s: %d faces" % (e["name"], len(e["faces"])) for e in ents if e["name"].startswith("cubed")]})
     ctx.note("static", {"meshes": len(ents), "cases": len(cases), "records": len(recs), "with_crossers": n_cross, "without_crossers": n_nocross, "every_face_crosses": n_none, "flat_noncrossing_face": n_flat,
                         "skipped_by_spec": skipped, "unjudged_records": len(unjudged), "area_checks": n_area,
                         "failing_records": len(failed), "raises": len(errs)})
@@ -366,8 +473,22 @@ def gen_histories(ctx, what, **kw):
 def hist_key(evs):
     return "/".join(
         "E%d" % e["target"] if e["act"] == "Edit" else
-        "%s:%s:%s:%s:%s%s%s:%s" % (e["act"], e["pe"], e["proj"], e["eng"], "P" if e["project"] else "p", "C" if e["cache"] else "c", "O" if e["override"] else "o", e["var"])
+        "%s%s:%s:%s:%s:%s%s%s:%s" % ("plot." if e.get("via") else "", e["act"], e["pe"], e["proj"], e["eng"], "P" if e["project"] else "p",
+                                       "C" if e["cache"] else "c", "O" if e["override"] else "o", e["var"])
         for e in evs)
+
+
+def via_accessor(evs):
+    """The same history with every conversion the plotting accessors can express (GeoDataFrame, project=False, cache=True,
+    override=False, a projection) made through grid.plot.edges / uxda.plot.polygons; None if there is none."""
+    out, n = [], 0
+    for e in evs:
+        if e["act"] in ("ToGdf", "DataToGdf") and not e["project"] and e["cache"] and not e["override"] and e["proj"] != "none":
+            out.append(dict(e, via="accessor"))
+            n += 1
+        else:
+            out.append(e)
+    return out if n else None
 
 
 def part_history(ctx, rng, ents, gen, cases):
@@ -429,7 +550,7 @@ def part_history(ctx, rng, ents, gen, cases):
                                              proj=["none", "rob", "rob180"], eng=["sp", "gp"], projects=["TRUE", "FALSE"], flags="FlagsTwo", kinds=["gdf", "poly", "line"])
         add(hs)
         hs, n_alpha["gdf3"] = gen_histories(ctx, "GeoDataFrame family, all histories of length 3", maxlen=3, edit=True, emitfrom=3,
-                                            proj=["none", "rob180"], eng=["sp", "gp"], projects=["TRUE"], flags="FlagsTwo", kinds=["gdf"])
+                                            proj=["none", "rob180", "ortho"], eng=["sp"], projects=["TRUE"], flags="FlagsTwo", kinds=["gdf"])
         add(hs, cap_clean=25000)
         hs, n_alpha["gdf3p"] = gen_histories(ctx, "GeoDataFrame family with project=False, one engine, length 3", maxlen=3, edit=False, emitfrom=3,
                                              proj=["rob", "rob180"], eng=["sp"], projects=["TRUE", "FALSE"], flags="FlagsTwo", kinds=["gdf"], pe=["exclude", "ignore"], vars_=("ta",))
@@ -443,7 +564,7 @@ def part_history(ctx, rng, ents, gen, cases):
         nsim = 2000
     else:
         hs, n_alpha["pairs"] = gen_histories(ctx, "all histories of length <= 2, three families", maxlen=2, edit=True, emitfrom=1,
-                                             proj=["none", "rob180"], eng=["sp", "gp"], projects=["TRUE"], flags="FlagsTwo", kinds=["gdf", "poly", "line"])
+                                             proj=["none", "rob180", "ortho"], eng=["sp", "gp"], projects=["TRUE"], flags="FlagsTwo", kinds=["gdf", "poly", "line"])
         add(hs)
         hs, n_alpha["pairs_p"] = gen_histories(ctx, "GeoDataFrame pairs with project=False", maxlen=2, edit=False, emitfrom=2,
                                                proj=["rob180"], eng=["sp"], projects=["TRUE", "FALSE"], flags="FlagsTwo", kinds=["gdf"], pe=["exclude", "ignore"], vars_=("ta",))
@@ -452,12 +573,24 @@ def part_history(ctx, rng, ents, gen, cases):
                                             proj=["none", "rob180"], eng=["sp"], projects=["TRUE"], flags="FlagsTwo", kinds=["gdf"])
         add(hs, cap_clean=1500)
         hs, n_alpha["poly3"] = gen_histories(ctx, "PolyCollection family, histories of length 3", maxlen=3, edit=True, emitfrom=3,
-                                             proj=["none", "rob180"], eng=["sp"], projects=["TRUE"], flags="FlagsTwo", kinds=["poly"])
+                                             proj=["none", "ortho"], eng=["sp"], projects=["TRUE"], flags="FlagsTwo", kinds=["poly"])
         add(hs, cap_clean=1500)
         hs, n_alpha["line3"] = gen_histories(ctx, "LineCollection family, all histories of length 3", maxlen=3, edit=True, emitfrom=3,
                                              proj=["none", "pc180"], eng=["sp"], projects=["TRUE"], flags="FlagsThree", kinds=["line"])
         add(hs)
         nsim = 120
+    # histories in which the plotting accessors make the conversions they can express
+    hs, n_alpha["accessor"] = gen_histories(ctx, "GeoDataFrame pairs with project=False, routed through the plotting accessors", maxlen=2, edit=False, emitfrom=1,
+                                            proj=["rob180"], eng=["sp"], projects=["TRUE", "FALSE"], flags="FlagsTwo", kinds=["gdf"], vars_=("ta",))
+    acc = [(via_accessor(evs), bads) for evs, bads in hs]
+    acc = [(evs, bads) for evs, bads in acc if evs is not None]
+    acc.sort(key=lambda h: hist_key(h[0]))
+    if not thorough and len(acc) > 150:
+        acc = rng.sample(acc, 150)
+    acc_keys = set()
+    for evs, bads in acc:
+        hists[hist_key(evs)] = (evs, bads)
+        acc_keys.add(hist_key(evs))
     hs, _ = gen_histories(ctx, "random behaviours of length 5 (-simulate)", maxlen=5, edit=True, emitfrom=5, simulate="num=%d" % (nsim // 2), depth=6,
                           proj=["none", "rob", "rob180"] if thorough else ["none", "rob180"], eng=["sp", "gp"], projects=["TRUE", "FALSE"],
                           flags="FlagsThree" if thorough else "FlagsTwo", kinds=["gdf", "poly", "line"])
@@ -486,12 +619,13 @@ def part_history(ctx, rng, ents, gen, cases):
                     and all(evs[0][f] == evs[2][f] for f in ("pe", "proj", "eng", "project")) and evs[0]["cache"] and not evs[2]["override"])
 
         keep |= {k for k in keys if sandwich(hists[k][0])}
+        keep |= acc_keys
         hists = {k: hists[k] for k in keys if k in keep}
     # -- 3. replay on real grids (with crossing faces under both seam positions)
     pool = []
     for c in cases:
         e = c["entry"]
-        if c["sv"] != 1 or e["cut"] != 0 or "~" in e["name"] or len(e["sizes"]) < 2:
+        if c["sv"] != 1 or e["cut"] != 0 or "~" in e["name"] or len(e["sizes"]) < 2 or e["name"].startswith("cubed"):
             continue
         c0, c2 = gen[(c["mi"], 0, 1)], gen[(c["mi"], 2, 1)]
         if c0["cross"] and c2["cross"] and set(c0["cross"]) != set(c2["cross"]) and len(c0["kept"]) >= 2 and len(c2["kept"]) >= 2:
@@ -511,8 +645,15 @@ def part_history(ctx, rng, ents, gen, cases):
     import time
 
     t0 = time.time()
-    res = pmap(X.replay_trace, jobs)
+    par = [j for j in jobs if not any(e.get("via") for e in j["events"])]
+    seq = [j for j in jobs if any(e.get("via") for e in j["events"])]
+    done = {j["id"]: r for j, r in zip(par, pmap(X.replay_trace, par))}
+    X.warm_accessors(pool[0])
+    for j in seq:                      # accessor histories: in this process (hvplot is initialised once)
+        done[j["id"]] = X.replay_trace(j)
+    res = [done[j["id"]] for j in jobs]
     ctx.note("t_history_replay_s", round(time.time() - t0, 1))
+    ctx.note("accessor_histories", len(seq))
     cls = {}
 
     def cid(d):
@@ -535,8 +676,11 @@ def part_history(ctx, rng, ents, gen, cases):
                     else:
                         rf = refs[(job["mesh"], X.ref_key(ev))]
                         rx, rg, rc = rf[0], (cid(rf[1]) if not rf[0] else 0), [[n, cid(d)] for n, d in sorted(rf[2].items())]
-                    steps.append({"ev": ev, "x": st["x"], "rx": rx, "r": st["r"], "rg": rg, "rc": rc,
-                                  "o": [{"g": cid(g), "c": [[n, cid(d)] for n, d in sorted(c.items())]} for g, c in st["o"]]})
+                    step = {"ev": {k: v for k, v in ev.items() if k != "via"}, "x": st["x"], "rx": rx, "r": st["r"], "rg": rg, "rc": rc,
+                            "o": [{"g": cid(g), "c": [[n, cid(d)] for n, d in sorted(c.items())]} for g, c in st["o"]]}
+                    if "argok" in st:
+                        step["argok"] = st["argok"]
+                    steps.append(step)
                 fh.write(json.dumps({"id": job["id"], "check_drift": True, "steps": steps}) + "\n")
         jr = ctx.tlc_ok("TracePlot", JUDGE_CFG, what="validate %d recorded histories against the ideal; explain failures by MechObserved" % len(jobs[a:a + CH]),
                         env={"TRACE_FILE": path}, workers=8, count=False, timeout=3000)
